@@ -39,8 +39,8 @@ def _sep_terminated(e):
 def check(ctx, rule_id=RULE):
     repo = ctx.repo
     ctx.rule(rule_id, 'no string-prefix test, length-slice or raw string '
-             'ordering is applied to path suffix strings (component-wise '
-             'comparison only)')
+             'ordering or substring test is applied to path suffix strings '
+             '(component-wise comparison only)')
     n_funcs = 0
     for fi in sorted(repo.functions.values(), key=lambda f: f.fq):
         if fi.module.name.startswith(('bfg9000.e1m1',)):
